@@ -312,6 +312,7 @@ def main : IO Unit := do
     | _ => Defects.asImplemented
   let da := match (← IO.getEnv "DV_ADM_DEFECTS") with
     | some "none" => Adm.Defects.none
+    | some "beforeFixes" => Adm.Defects.beforeFixes
     | some "jsonNullPanics" => { jsonNullPanics := true, emptyKeyPanics := false }
     | some "emptyKeyPanics" => { jsonNullPanics := false, emptyKeyPanics := true }
     | _ => Adm.Defects.asImplemented
